@@ -27,7 +27,7 @@ func p2pxsimExec(r *Run) {
 
 func p2pxsimRun(r *Run) {
 	t := r.T
-	g := &p2pRig{r: r, t: t, banUntil: map[string]time.Time{}, forbidden: map[Hash32]bool{}, offered: map[Hash32]bool{}, lastGH: map[int]int{}, reqAfterContra: map[int]int{}}
+	g := &p2pRig{r: r, t: t, banUntil: map[string]time.Time{}, forbidden: map[Hash32]bool{}, offered: map[Hash32]bool{}, lastGH: map[int]int{}, reqAfterContra: map[int]int{}, everLongest: map[string]bool{}}
 	g.start = time.Now()
 	g.tree = NewModel(genesisRaw())
 	g.experimental = true
